@@ -86,7 +86,8 @@ def r2b(cx, h):
 
 
 def r4(cx):
-    body = cx.mir.one("varlink", "server::listen::{closure#1}")
+    from .roles import listen_worker
+    body = listen_worker(cx)
     cx.saw(body)
     cfg = Cfg(body); du = DefUse(body)
     hcalls = [t for t in body.calls("=handle") if "ConnectionHandler" in t.callee.path]
